@@ -172,7 +172,8 @@ func genIniText(r *rand.Rand, t *Tree, n int, oneChain bool, valid bool, noise b
 	tg := iniTargets(t)
 	var cands []iniTarget
 	for _, it := range tg {
-		if iniAble(it.o) && !it.o.NoIni {
+		// (callbacks can be addressed from a file too; they are left out where an equivalent command line is built)
+		if (iniAble(it.o) || !oneChain) && !it.o.NoIni {
 			cands = append(cands, it)
 		}
 	}
@@ -229,6 +230,9 @@ func genIniText(r *rand.Rand, t *Tree, n int, oneChain bool, valid bool, noise b
 		}
 		name, form := nameFor(r, it)
 		raw := iniValueFor(r, it.o, valid || chance(r, 0.8))
+		if !oneChain && chance(r, 0.06) {
+			raw = "" // `name =`: the empty text is the value (only options that take no argument read it as "no value")
+		}
 		l := name + pick(r, []string{"=", " = ", " =", "= "}) + raw
 		if noise {
 			l = pad(r, l)
@@ -686,6 +690,23 @@ func genSessionRoundTrip(r *rand.Rand, t *Tree, id int) *SessionScn {
 	// parser B: fresh, reads what A wrote, then a parse applies the defaults of the omitted options
 	// (a third of the round trips go through a file that already exists: WriteFile / ParseFile)
 	viaW, viaR := chance(r, 0.3), chance(r, 0.3)
+	if chance(r, 0.3) {
+		// the writing parser first parses an empty vector (defaults applied), then a vector that sets some options explicitly
+		a2 := &Scenario{}
+		genArgv(rand.New(rand.NewSource(r.Int63())), t, a2)
+		av := make([]string, len(a2.Argv))
+		for i, a := range a2.Argv {
+			av[i] = a.String()
+		}
+		sc.Calls = append(sc.Calls,
+			argsCall(),
+			argsCall(av...),
+			Call{Op: "write", IniOpts: pick(r, iniOptCombos), Argv: []S{}, Text: S{}, ViaFile: viaW},
+			Call{Op: "fresh", Argv: []S{}, IniOpts: []string{}, Text: S{}},
+			Call{Op: "ini", FromWrite: 3, Argv: []S{}, IniOpts: []string{}, Text: S{}, ViaFile: viaR},
+			argsCall())
+		return sc
+	}
 	sc.Calls = append(sc.Calls,
 		argsCall(),
 		Call{Op: "write", IniOpts: pick(r, iniOptCombos), Argv: []S{}, Text: S{}, ViaFile: viaW},
